@@ -101,6 +101,39 @@ def mutate(rng, data):
 	return bytes(data[1:]) if data else b'\x00', 'shift'
 
 
+def structured_mutants(net, model, tree, data):
+	"""Element-aware mutants of a valid encoding: for every typed-array member of the value, locate the element blocks in the bytes and
+	duplicate / swap / rotate them (duplicate and out-of-order keys, wrong element counts are what byte-level mutation almost never hits)."""
+	mutants = []
+	if codec.kind(model) != 'Struct':
+		return mutants
+	members = dict(tree[2])
+	for field in codec.settable_fields(model):
+		if not codec.is_array(field) or codec.is_byte_array(field):
+			continue
+		elements = members.get(field.name) or []
+		if len(elements) < 2:
+			continue
+		try:
+			blocks = [bytes(codec.to_object(net, field.field_type.element_type, e).serialize()) for e in elements]
+		except Exception:  # pylint: disable=broad-except
+			continue
+		if len(set(len(b) for b in blocks)) != 1 or field.field_type.alignment:
+			continue
+		joined = b''.join(blocks)
+		position = data.find(joined)
+		if position < 0:
+			continue
+
+		def rebuilt(new_blocks, position=position, joined=joined):
+			return data[:position] + b''.join(new_blocks) + data[position + len(joined):]
+		mutants.append((rebuilt([blocks[0]] + [blocks[0]] + blocks[2:]), f'dup-element:{field.name}'))
+		mutants.append((rebuilt([blocks[1], blocks[0]] + blocks[2:]), f'swap-elements:{field.name}'))
+		mutants.append((rebuilt(blocks[1:] + blocks[:1]), f'rotate-elements:{field.name}'))
+		mutants.append((rebuilt(blocks[:-1] + [blocks[-2]]), f'dup-last:{field.name}'))
+	return mutants
+
+
 def signature(kind, name, payload):
 	return f'{kind}:{name}:' + hashlib.sha256(repr(payload).encode('utf8')).hexdigest()[:12]
 
@@ -120,6 +153,7 @@ def run_network(check, net, per_class, per_class_mutants):
 		model = net.by_name[name]
 		is_abstract = codec.kind(model) == 'Struct' and model.is_abstract
 		encodings = []
+		structured_sources = []
 		for _ in range(per_class):
 			tree = generator.struct(model, 0) if is_abstract else generator.named(name)
 			try:
@@ -139,6 +173,8 @@ def run_network(check, net, per_class, per_class_mutants):
 				continue
 			data = bytes.fromhex(encoded[3:])
 			encodings.append(data)
+			if len(structured_sources) < 3 and not is_abstract:
+				structured_sources.append((tree, data))
 			# P: size == len(bytes)
 			if size_text != f'ok:{len(data)}':
 				check.fail(signature('size-mismatch', name, codec.render(tree)),
@@ -169,13 +205,15 @@ def run_network(check, net, per_class, per_class_mutants):
 						{'network': net.name, 'class': name, 'factory': parent_of[name], 'bytes': data.hex(), 'op': 'factory'})
 		if is_abstract or not encodings:
 			continue
-		for _ in range(per_class_mutants):
-			data, how = mutate(rng, rng.choice(encodings))
+		mutant_stream = [mutate(rng, rng.choice(encodings)) for _ in range(per_class_mutants)]
+		for tree_, data_ in structured_sources:
+			mutant_stream += structured_mutants(net, model, tree_, data_)
+		for data, how in mutant_stream:
 			des_text, decoded = impl_des(net, name, data)
 			exprs.append(f'case_des {net.coq_schema} "{name}" {blit(data)}')
 			expected.append(des_text)
 			meta.append(('des', name, data.hex()))
-			check.case(f'{net.name}:mutant:{how}:{des_text.split(":")[0].split("|")[0]}', (name, data.hex()))
+			check.case(f'{net.name}:mutant:{how.split(":")[0]}:{des_text.split(":")[0].split("|")[0]}', (name, data.hex()))
 			if decoded is not None:
 				# P: decode-encode-decode stability for any byte string that decodes at all
 				parts = des_text.split('|')
